@@ -273,7 +273,10 @@ def y3(ctx, F):
         a = args[0][1] if args else ("none",)
         want_sq = ("call", "chess::position::Position::new_assert", (("var", rowv), ("var", colv)))
         sq_ok = _contains(a, ("call", "chess::Game::get_position", (("var", "self"), want_sq)))
-        glyph_ok = "Piece::as_char(" in hir.fmt(a, 600) and _contains(a, ("lit", " "))
+        gp = ("call", "chess::Game::get_position", (("var", "self"), want_sq))
+        v_none = hir.fold(a, {gp: ("variant", "std::prelude::v1::None")})
+        v_some = hir.fold(a, {gp: ("ctor", "std::prelude::v1::Some", (("var", "P"),))})
+        glyph_ok = v_none == ("lit", " ") and v_some == ("call", "chess::piece::Piece::as_char", (("var", "P"),))
         ctx.check("C20.Y3", "cell=piece-on-(row,col)", sq_ok, fn=P, file=fn["file"], line=hir.line(n),
                   what="the cell printed at (row, col) is not the piece standing on (row, col)",
                   expected="get_position(new_assert(%s, %s))" % (rowv, colv), found=hir.fmt(a, 300))
@@ -325,7 +328,7 @@ def y4(ctx, F, D):
 def y5(ctx, F):
     fn = F.fn("chess::Game::get_pgn")
     em, sym = emissions(fn, F, recv="s")
-    ctx.floor("C20.Y5", "emissions in get_pgn", len(em), 5)
+    ctx.floor("C20.Y5", "emissions in get_pgn", len(em), 3)
     nums = [e for e in em if e[2][0] == "call" and "to_string" in str(e[2][1]) or
             (e[2][0] == "call" and str(e[2][1]).endswith("as_str") and "to_string" in hir.fmt(e[2], 200))]
     ok = False
@@ -345,15 +348,27 @@ def y5(ctx, F):
               what="move numbers must be i/2+1, written before every even-indexed (White) move",
               expected="push_str((i/2+1).to_string()) under i % 2 == 0", found=found)
     # every move text is emitted unconditionally inside the loop, from the moves of move_stack in order
-    mv = [e for e in em if e[2][0] == "call" and str(e[2][1]).endswith("as_str") and e[2][2][0][0] == "var"]
-    ok = len(mv) == 1 and not [x for x in plain_guards(mv[0][3]) if x[0] == "if"] and len(loop_binders(mv[0][3])) == 1
+    symt = hir.Sym(hir.Env(fn["hir"], F), F, through=True)
+    mv = []
     src_ok = False
-    body = fn["hir"]["body"]
-    for n, anc in hir.walk(body):
-        if n.get("k") == "MethodCall" and n["name"] == "map":
-            txt = hir.fmt(sym(n), 300)
-            if "move_stack" in txt and "pgn_notation" in txt and "rev" not in txt:
-                src_ok = True
+    for e in em:
+        lb = loop_binders(e[3])
+        if len(lb) != 1:
+            continue
+        arg_t = hir.fmt(symt(e[0]["args"][0]), 300)
+        it_t = hir.fmt(lb[0][0], 400)
+        # the iterable may be a local (`let moves = ...collect()`): look through it
+        it_full = it_t
+        for n, anc in hir.walk(fn["hir"]["body"]):
+            if n.get("k") == "SLet" and n["pat"].get("k") == "PBind" and ("(%s)" % n["pat"]["name"]) in it_t and n.get("init") is not None:
+                it_full = it_t + " <- " + hir.fmt(symt(n["init"]), 400)
+        names = lb[0][1]
+        elem = [nm for nm in names if ("(%s)" % nm) in arg_t or arg_t == nm]
+        if ("pgn_notation" in arg_t or "pgn_notation" in it_full) and elem and "to_string" not in arg_t:
+            mv.append(e)
+            src_ok = "move_stack" in it_full and "pgn_notation" in (arg_t + it_full) and \
+                not any(w in it_full for w in ("rev(", "skip(", "take(", "filter(", "step_by(", "skip_while(", "take_while("))
+    ok = len(mv) == 1 and not [x for x in plain_guards(mv[0][3]) if x[0] == "if"]
     ctx.check("C20.Y5", "every-move-recorded-in-order", ok and src_ok, fn=fn["path"], file=fn["file"], line=fn["span"][0],
               what="the record must contain pgn_notation of every move of the move stack, in order",
               found={"unconditional_emit": ok, "source_is_move_stack_mapped_through_pgn_notation": src_ok})
